@@ -224,6 +224,14 @@ A12 == E("A12", "args",
      <<V("v", VL(<<VO(<<"a">>, <<VI(1)>>), VNull, VO(<<"a", "b">>, <<VI(2), VS("x")>>)>>)), V("w", VL(<<VL(<<VO(<<"a">>, <<VI(1)>>)>>), VNull>>))>>,
      <<V("v", VNull)>> >>)
 
+\* nullable variables (with and without default) in Non-Null positions that have a location default: input fields and an argument
+A14 == E("A14", "args",
+  dQV(<<dVar("i", Ty("Int"), Absent), dVar("s", Ty("Sub"), Absent), dVar("j", Ty("Int"), VI(3)), dVar("l", Ls(Ty("Int")), Absent)>>,
+      <<dF("o", <<dA("x", VO(<<"a", "h", "k">>, <<VI(1), VVar("i"), VVar("s")>>))>>, <<>>),
+        dFA("o2", "o", <<dA("x", VO(<<"a", "h", "k">>, <<VVar("j"), VVar("j"), VO(<<"z", "zs">>, <<VVar("i"), VVar("l")>>)>>))>>, <<>>),
+        dF("two", <<dA("a", VVar("i"))>>, <<>>)>>),
+  << <<>>, <<V("i", VI(2)), V("s", VO(<<"z">>, <<VI(4)>>)), V("l", VL(<<VI(7), VNull>>))>>, <<V("j", VI(9)), V("s", VO(<<>>, <<>>))>> >>)
+
 \* a variable named like a canonical name, nested in a literal of a directive argument
 A13 == E("A13", "args",
   dQV(<<dVar("a", Ty("Int"), Absent)>>,
@@ -291,6 +299,6 @@ V3 == E("V3", "nest",
 CorpusV == <<V1, V2, V3>>
 
 Corpus == <<P1, P2, P3, P4, P5, P6, P7, P8, P9, P10, P11, P12, P13, P14, P15, P16, P17,
-            A1, A2, A3, A4, A5, A6, A7, A8, A9, A10, A11, A12, A13,
+            A1, A2, A3, A4, A5, A6, A7, A8, A9, A10, A11, A12, A13, A14,
             N1, N2, N3, N4, N5, N6>>
 =============================================================================
